@@ -167,7 +167,8 @@ def _dump_ballots(votes: Dict[Tuple[Candidate, ...], Number],
         yield f'{prefix}={cand_nicks[cand]} {cand_names[cand]}'
     yield f'ballots={len(votes)}'
     for ranking, n_votes in votes.items():
-        multiplier = f'{n_votes}X ' if n_votes != 1 else ''
+        # an empty ranking needs its multiplier: a blank line is not a ballot
+        multiplier = f'{n_votes}X ' if n_votes != 1 or not ranking else ''
         yield multiplier + _ranking_to_str(ranking, cand_nicks)
     yield 'end'
 
